@@ -329,9 +329,13 @@ AUX = {
     "sf": ("sf", "_", ("seq", ("ref", "x"), ("str", "!"))),
     "sg": ("sg", "_", ("seq", ("ref", "x"), ("ref", "sf"))),
     "sgrp": ("sgrp", "_", ("raw", '(x | "b" ~ x)', False, ("x",), ("choice", "seq", "ref", "str"))),  # a silent rule whose whole body is one parenthesised group
+    "sk": ("sk", "_", ("star", ("seq", ("not", ("str", "a")), ("any",)))),  # a rule that IS the skip idiom (always succeeds)
+    "cpany": ("cpany", "", ("star", ("any",))),
     "pf": ("pf", "", ("seq", ("pushlit", "a"), ("str", "!"))),
     "qf": ("qf", "", ("seq", ("pop",), ("str", "!"))),
 }
+
+DEFINED_FIRST = {"sk"}
 
 # name -> (expr, needs_stack_prelude)
 KINDS: dict[str, tuple[Expr, bool]] = {
@@ -345,6 +349,10 @@ KINDS: dict[str, tuple[Expr, bool]] = {
     "ilitalt": (("choice", ("istr", "ss"), S("x")), False),
     "ilitalt1": (("choice", ("istr", "k"), S("x"), ("istr", "s")), False),
     # prefix-sharing choices with case-insensitive members (ordered choice must keep its order when squashed)
+    # a predicate over a rule / group that is itself the skip idiom: !sk never succeeds, so the outer loop matches nothing
+    "skipnested": (("seq", ("star", ("seq", ("not", ("ref", "sk")), ("any",))), ("ref", "cpany")), False),
+    "skipnested3": (("seq", ("star", ("seq", ("not", ("star", ("seq", ("not", S("a")), ("any",)))), ("any",))), ("opt", ("ref", "x")), ("star", ("any",))), False),
+    "skipnested2": (("seq", ("star", ("seq", ("not", ("choice", S("b"), ("ref", "sk"))), ("any",))), ("opt", ("ref", "x"))), False),
     "skipidiomci": (("seq", ("star", ("seq", ("not", ("istr", "ab")), ("any",))), ("istr", "ab")), False),
     "skipidiomci2": (("seq", ("star", ("seq", ("not", ("choice", ("istr", "k"), S("b"))), ("any",))), ("any",)), False),
     "choice1pt": (("choice", ("range", "a", "a"), ("range", "c", "b"), S("x"), ("range", "b", "b")), False),  # one-point and empty ranges among alternatives
@@ -526,6 +534,10 @@ TRIVIA: dict[str, list[Rule]] = {
     "bothn1": [WSN, ("COMMENT", "", ("str", "#"))],
     "cmb": [CMB],
     # a comment that touches the user stack before it can fail: a partial match has to be undone on the stack too
+    # comments whose body calls other rules: pest runs trivia bodies atomically, so a normal rule inside yields no pair
+    # while a $ rule does
+    "cmr": [("COMMENT", "_", ("seq", ("str", "#"), ("choice", ("ref", "n1"), ("ref", "x"))))],
+    "bothr": [WS2, ("COMMENT", "", ("seq", ("str", "#"), ("ref", "x")))],
     "cmstack": [("COMMENT", "_", ("seq", ("str", "#"), ("push", ("str", "!")), ("str", "a"), ("drop",)))],
     "bothstack": [WS2, ("COMMENT", "", ("seq", ("str", "#"), ("push", ("opt", ("str", "!"))), ("str", "a"), ("pop",)))],
     "bothb": [WS2, CMB],
@@ -542,7 +554,7 @@ def build(ctx: str, kind: str, triv: str) -> list[Rule] | None:
         body = ("seq", ("push", ("any",)), body) if ctx not in ("top",) else ("seq", ("push", ("any",)), body)
     rules: list[Rule] = [("r", mod, body)] + extra
     used = set()
-    pending = [body] + [x[2] for x in extra]
+    pending = [body] + [x[2] for x in extra] + [t[2] for t in TRIVIA[triv]]
     while pending:
         for sub in walk(pending.pop()):
             names = [sub[1]] if sub[0] == "ref" else list(sub[3]) if sub[0] == "raw" else []
@@ -552,7 +564,10 @@ def build(ctx: str, kind: str, triv: str) -> list[Rule] | None:
                     pending.append(AUX[nm][2])
     for name in AUX:
         if name in used:
-            rules.append(AUX[name])
+            if name in DEFINED_FIRST:
+                rules.insert(0, AUX[name])  # rules are optimized in definition order: this one before its users
+            else:
+                rules.append(AUX[name])
     rules += TRIVIA[triv]
     if not well_formed(rules):
         return None
